@@ -41,6 +41,10 @@ CLAIMED = {
    text="Deductive proof (K2 guard contracts) of the write-before-release ordering in the channel state machine: SignNextCommitment extends the in-memory remote chain and returns signatures only after AppendRemoteCommitChain returned nil for the CommitDiff built from exactly the view and signatures it returns; RevokeCurrentCommitment advances the local tail first, persists that commitment with UpdateCommitment, and returns the revoke_and_ack (for the old height) only if the write returned nil; ReceiveRevocation advances the in-memory remote tail and compacts the logs only after AdvanceCommitChainTail returned nil; ReceiveNewCommitment appends the new local commitment only after the commitment signature (Verify under the remote multisig key over the sighash of this commitment tx, or the musig2 partial signature) and every HTLC signature (loop invariant + step relation) verified.",
    note="Decides the clause 'the commitment it would broadcast after reload is never one whose revocation secret it has already released' and the persist-before-release mechanism. Not decided: that the reloaded state EQUALS the pre-crash state (serialisation round trip of channeldb/chanstate codecs and the restore functions over all crash points), forwarding packages, that the reloaded channel can continue operating. Goroutines / channels / select in SignNextCommitment and the sig pool are treated per A-seq (results of channel receives are unconstrained).",
    ref="DESIGN.md §4 C02"),
+ "C08": dict(
+   text="Deductive proof (K2 guard contracts) at the channel API, which is where every settle or fail of an HTLC enters the update log: in SettleHTLC / ReceiveHTLCSettle the appended Settle entry is dominated by: the HTLC exists in the right log, it has no earlier modification, and its payment hash equals sha256 of the supplied preimage (sha256 as an opaque function of the preimage bytes); the entry carries that HTLC's amount and index and the preimage; FailHTLC / MalformedFailHTLC / ReceiveFailHTLC append a fail entry only for an existing, unmodified HTLC with its amount and hash; every success path marks the HTLC modified after appending (called() ghost predicates), so a second settle-or-fail of the same HTLC is refused.",
+   note="Decides 'the incoming HTLC is settled only with the preimage' and 'at most one settle-or-fail per HTLC' at the update-log level. Not decided: fail-back only after the outgoing HTLC is irrevocably removed, balance conservation at quiescence, dangling circuits - properties of link / switch / mailbox message flows under restarts and drops (histories).",
+   ref="DESIGN.md §4 C08"),
 }
 
 NOT_APPLICABLE = {
